@@ -541,6 +541,11 @@ class Engine:
     def eval_const_body(self, f):
         key = ('constval', f.name)
         if key in self.ctx: return self.ctx[key]
+        try: return self._eval_const_body(f, key)
+        except Unsupported:
+            # a constant this executor cannot evaluate (thread-local keys, vtables ...): opaque unless somebody looks inside
+            self.ctx[key] = Opaque('const', (f.name,)); return self.ctx[key]
+    def _eval_const_body(self, f, key):
         st = State(); fr = Frame(f); st.frames.append(fr)
         saved = (self.results, self.cuts); self.results = []; self.cuts = set()
         try: self.run(st)
@@ -743,6 +748,19 @@ class Engine:
             if w1 == w0: return V(v.t, ty)
             if w1 < w0: return V(Extract(w1 - 1, 0, v.t), ty)
             return V(SignExt(w1 - w0, v.t) if s0 else ZeroExt(w1 - w0, v.t), ty)
+        if kind == 'IntToFloat' and ty == 'f64':
+            import z3
+            w0, s0 = bvw(v.ty)
+            return V(z3.fpSignedToFP(z3.RNE(), v.t, z3.Float64()) if s0 else z3.fpUnsignedToFP(z3.RNE(), v.t, z3.Float64()), 'f64')
+        if kind == 'FloatToInt' and v.ty == 'f64' and ty in INT_TYPES:
+            import z3
+            w1, s1 = bvw(ty)
+            if s1: raise Unsupported('float to signed int')
+            # Rust `as`: saturating, NaN -> 0
+            mx = z3.fpUnsignedToFP(z3.RNE(), BitVecVal((1 << w1) - 1, w1), z3.Float64())
+            conv = z3.fpToUBV(z3.RTZ(), v.t, BitVecSort(w1))
+            return V(If(z3.fpIsNaN(v.t), BitVecVal(0, w1), If(z3.fpLEQ(v.t, z3.FPVal(0.0, z3.Float64())), BitVecVal(0, w1),
+                        If(z3.fpGEQ(v.t, mx), BitVecVal((1 << w1) - 1, w1), conv))), ty)
         pt = ty.replace('*const ', '').replace('*mut ', '').strip()
         if kind == 'PointerWithExposedProvenance': return Ptr(v.t, pt)
         if kind == 'PointerExposeProvenance':
@@ -1139,6 +1157,9 @@ def intrinsic(eng, st, fr, callee, base, args, R):
         if fn == 'unsigned_abs': return R(V(If(a.t < 0, -a.t, a.t), 'u' + ty[1:]))
         if fn == 'min': return R(V(If((a.t < args[1].t) if sg else ULT(a.t, args[1].t), a.t, args[1].t), ty))
         if fn == 'max': return R(V(If((a.t > args[1].t) if sg else UGT(a.t, args[1].t), a.t, args[1].t), ty))
+    if base in ('std::f64::<impl f64>::sqrt', 'core::f64::<impl f64>::sqrt'):
+        import z3
+        return R(V(z3.fpSqrt(z3.RNE(), args[0].t), 'f64'))
     if re.match(r'core::slice::<impl \[\w+\]>::(as_ptr|as_mut_ptr)$', base) or base in ('std::vec::Vec::as_ptr', 'std::vec::Vec::as_mut_ptr', 'alloc::vec::Vec::as_ptr', 'alloc::vec::Vec::as_mut_ptr'):
         s = deref(args[0]); return R(Ptr(s.base, s.ety))
     if re.match(r'core::slice::<impl \[\w+\]>::is_empty$', base) or base in ('std::vec::Vec::is_empty', 'alloc::vec::Vec::is_empty'):
